@@ -197,6 +197,9 @@ def run(ctx):
         desc.update({"n_jobs": a} if what == "count" else {"start": a, "step": b})
         rep.case(desc, nontrivial=n_lines >= 2)
         m = tl.dec_counts(mo)
+        if r.get("status") == "private_name_absent":
+            rep.bump("single_slice_cases_skipped_private_job_function_absent")
+            continue
         if what == "count":
             rep.hist("count_file_kind", kind)
             rep.hist("count_n_jobs", a)
